@@ -265,17 +265,68 @@ fn ctx(s: &str, at: usize) -> String {
 }
 
 /// Shape of the first difference between the two passes (routes known findings; not part of the verdict):
-/// `<c1><c2>:<p><n>` with c1/c2 the differing characters, p/n the nearest non-blank characters of pass 1
-/// before/after the difference; letters and digits are written `a`, newline `n`, space `s`, tab `t`.
-fn fingerprint(a: &str, b: &str, at: usize) -> String {
+/// `<kind>:<p>|<n>:<c0|c1>` where, for the first differing LINE of pass 1 / pass 2,
+/// kind = `blank-` / `blank+` (a blank line of pass 1 is gone in pass 2 / a new one appears), `indent` (same text,
+/// other indentation), `space` (same text up to inner white space), `join` / `split` (text of the following line
+/// is pulled onto this line / pushed to the next line), `text` (anything else);
+/// p, n = for blank±: last character of the previous non-blank line and first word of the next one; for
+/// join/split: characters on both sides of the break; else the first differing characters. Letters/digits are `a`
+/// unless the word is a keyword; operators are written with up to two characters. `c1` = a comment is on the differing
+/// line or on the nearest non-blank line before / after it, else `c0`.
+fn fingerprint(a: &str, b: &str, _at: usize) -> String {
+    const KW: &[&str] = &["fn", "pub", "use", "const", "struct", "enum", "impl", "trait", "abi", "storage", "configurable",
+        "let", "if", "else", "while", "for", "match", "return", "mod", "type", "where", "break", "continue", "asm"];
     let cls = |c: Option<char>| -> String { match c {
-        None => "$".into(), Some('\n') => "n".into(), Some('\r') => "r".into(), Some(' ') => "s".into(), Some('\t') => "t".into(),
+        None => "$".into(), Some(' ') => "s".into(), Some('\t') => "t".into(), Some('\r') => "r".into(),
         Some(c) if c.is_alphanumeric() || c == '_' => "a".into(), Some(c) if c.is_ascii() => c.to_string(), Some(_) => "u".into() } };
-    let mut at = at; while !a.is_char_boundary(at) || !b.is_char_boundary(at) { at -= 1; }
-    let c1 = a[at..].chars().next(); let c2 = b[at..].chars().next();
-    let p = a[..at].chars().rev().find(|c| !c.is_whitespace());
-    let n = a[at..].chars().find(|c| !c.is_whitespace());
-    format!("{}{}:{}{}", cls(c1), cls(c2), cls(p), cls(n))
+    let first_word = |l: &str| -> String {
+        let t = l.trim_start();
+        let w: String = t.chars().take_while(|c| c.is_alphanumeric() || *c == '_').collect();
+        if w.is_empty() {
+            // an operator / punctuation run of at most two characters (`&&`, `||`, `^`, `//`, `/*`, `==`, …)
+            let run: String = t.chars().take_while(|c| c.is_ascii_punctuation()).take(2).collect();
+            if run.is_empty() { cls(t.chars().next()) } else if matches!(run.chars().next(), Some('(' | ')' | '{' | '}' | '[' | ']' | ';' | ',' | '#' | '"')) { run.chars().take(1).collect() } else { run }
+        }
+        else if KW.contains(&w.as_str()) { w } else { "a".into() }
+    };
+    let squash = |l: &str| -> String { l.split_whitespace().collect::<Vec<_>>().join(" ") };
+    let l1: Vec<&str> = a.split('\n').collect();
+    let l2: Vec<&str> = b.split('\n').collect();
+    let i = l1.iter().zip(l2.iter()).position(|(x, y)| x != y).unwrap_or(l1.len().min(l2.len()));
+    let (x, y) = (l1.get(i).copied(), l2.get(i).copied());
+    let has_c = |l: Option<&str>| l.map(|l| l.contains("//") || l.contains("/*") || l.contains("*/")).unwrap_or(false);
+    // a comment on the differing line, or on the nearest non-blank line before / after it (in either pass)
+    let near = |ls: &Vec<&str>| -> bool {
+        has_c(ls[..i.min(ls.len())].iter().rev().find(|l| !l.trim().is_empty()).copied())
+            || has_c(ls.get(i + 1..).and_then(|r| r.iter().find(|l| !l.trim().is_empty())).copied())
+    };
+    let c = has_c(x) || has_c(y) || near(&l1) || near(&l2);
+    let prev_last = || -> String { cls(l1[..i].iter().rev().find(|l| !l.trim().is_empty()).and_then(|l| l.trim_end().chars().last())) };
+    let (kind, p, n) = match (x, y) {
+        (None, None) => ("text", "$".to_string(), "$".to_string()),
+        (Some(x), None) => (if x.trim().is_empty() { "blank-" } else { "text" }, prev_last(), "$".to_string()),
+        (None, Some(y)) => (if y.trim().is_empty() { "blank+" } else { "text" }, prev_last(), "$".to_string()),
+        (Some(x), Some(y)) => {
+            if x.trim().is_empty() { ("blank-", prev_last(), l1[i..].iter().find(|l| !l.trim().is_empty()).map(|l| first_word(l)).unwrap_or("$".into())) }
+            else if y.trim().is_empty() { ("blank+", prev_last(), first_word(x)) }
+            else if x.trim() == y.trim() { ("indent", cls(x.chars().next()), cls(y.chars().next())) }
+            else if squash(x) == squash(y) {
+                let at = x.chars().zip(y.chars()).position(|(p, q)| p != q).unwrap_or(0);
+                ("space", cls(x[..x.char_indices().nth(at).map(|t| t.0).unwrap_or(0)].trim_end().chars().last()), cls(x.chars().skip(at).find(|c| !c.is_whitespace())))
+            }
+            else if y.starts_with(x.trim_end()) && !x.trim().is_empty() {
+                ("join", cls(x.trim_end().chars().last()), first_word(&y[x.trim_end().len()..]))
+            }
+            else if x.starts_with(y.trim_end()) && !y.trim().is_empty() {
+                ("split", cls(y.trim_end().chars().last()), first_word(&x[y.trim_end().len()..]))
+            }
+            else {
+                let at = x.chars().zip(y.chars()).position(|(p, q)| p != q).unwrap_or(x.chars().count().min(y.chars().count()));
+                ("text", cls(x.chars().nth(at)), cls(y.chars().nth(at)))
+            }
+        }
+    };
+    format!("{kind}:{p}|{n}:{}", if c { "c1" } else { "c0" })
 }
 
 fn status(o1: &Out, o2: &Option<Out>) -> String {
@@ -350,6 +401,153 @@ fn nlseq_line(r: &mut Rng) -> String {
     }
 }
 
+// ------------------------------------------------------------------------------------------- generated sources
+
+const BIN_OPS: &[&str] = &["^", "|", "&", "+", "-", "*", "/", "%", "<<", ">>", "==", "!=", "<", ">", "<=", ">=", "&&", "||"];
+const L1: &str = "first_operand_value_with_a_long_name";
+const L2: &str = "second_operand_value_with_a_long_name";
+const L3: &str = "third_operand_value_with_a_long_name";
+
+/// (name, expression) pairs for one binary operator: a short form and forms padded with long identifiers so that
+/// the line exceeds max_width and is wrapped at the operator itself, inside a wrapped `&&` / `||`, inside call arguments.
+fn expr_shapes(op: &str) -> Vec<(String, String)> {
+    let f1 = "some_really_long_function_name_number_one";
+    let f2 = "some_really_long_function_name_number_two";
+    vec![
+        ("short".into(), format!("a {op} b")),
+        ("chain".into(), format!("{L1} {op} {L2} {op} {L3} {op} {L1} {op} {L2}")),
+        ("parchain".into(), format!("({L1} {op} {L2}) {op} ({L3} {op} {L1}) {op} ({L2} {op} {L3})")),
+        ("inand".into(), format!("(a {op} b) != 0 && {f1}(a) == {f2}(b, a, a, b)")),
+        ("inor".into(), format!("{f1}(a) == {f2}(b, a, a, b) || (a {op} b) != 0")),
+        ("bare_and".into(), format!("a {op} b != {L1} && {f1}(a) == {f2}(b, a, a, b)")),
+        ("args".into(), format!("{f1}({L1} {op} {L2}, {L3} {op} {L1}, {L2} {op} {L3})")),
+        ("method".into(), format!("{L1}.{f1}({L2} {op} {L3}).{f2}(a {op} b).unwrap_or({L1} {op} {L2})")),
+    ]
+}
+
+/// Statement / expression positions an expression `e` is put in.
+fn expr_positions(e: &str) -> Vec<(String, String)> {
+    vec![
+        ("let".into(), format!("    let r = {e};\n")),
+        ("ret".into(), format!("    return {e};\n")),
+        ("tail".into(), format!("    {e}\n")),
+        ("if".into(), format!("    if {e} {{\n        1\n    }} else {{\n        2\n    }}\n")),
+        ("while".into(), format!("    while {e} {{\n        break;\n    }}\n")),
+        ("match".into(), format!("    match {e} {{\n        _ => 0,\n    }}\n")),
+        ("arg".into(), format!("    g(a, {e}, b);\n")),
+        ("field".into(), format!("    let s = S {{ x: {e}, y: 1 }};\n")),
+        ("array".into(), format!("    let s = [{e}, {e}];\n")),
+        ("tuple".into(), format!("    let s = ({e}, 1);\n")),
+        ("assign".into(), format!("    r = {e};\n")),
+        ("nested".into(), format!("    if a == b {{\n        while b == a {{\n            let r = {e};\n        }}\n    }}\n")),
+    ]
+}
+
+const ITEMS: &[(&str, &str)] = &[
+    ("use", "use std::hash::Hash;\n"),
+    ("const", "const C: u64 = 1;\n"),
+    ("fn", "fn f(a: u64) -> u64 {\n    a\n}\n"),
+    ("struct", "struct S {\n    x: u64,\n}\n"),
+    ("enum", "enum E {\n    A: (),\n    B: u64,\n}\n"),
+    ("impl", "impl S {\n    fn m(self) -> u64 {\n        self.x\n    }\n}\n"),
+    ("trait", "trait T {\n    fn t(self) -> u64;\n}\n"),
+    ("abi", "abi MyAbi {\n    fn a();\n\n    fn b();\n}\n"),
+    ("storage", "storage {\n    v: u64 = 0,\n}\n"),
+    ("configurable", "configurable {\n    K: u64 = 1,\n}\n"),
+];
+const GEN_COMMENTS: &[(&str, &str)] = &[
+    ("semi", "// use std::hash::*;"), ("brace", "// fn old() {}"), ("obrace", "// fn old() {"), ("paren", "// call(a, b)"),
+    ("comma", "// a, b,"), ("word", "// plain words"), ("bsemi", "/* let x = 1; */"), ("bword", "/* plain words */"),
+];
+/// Blocks with a hole for a comment as first / last thing inside.
+const BLOCKS: &[(&str, &str, &str)] = &[
+    ("fn", "fn f(a: u64) -> u64 {\n", "    let b = a;\n    b\n}\n"),
+    ("fnstmt", "fn f(a: u64) {\n    let b = a;\n", "}\n"),
+    ("impl", "impl S {\n", "    fn m(self) -> u64 {\n        self.x\n    }\n}\n"),
+    ("trait", "trait T {\n", "    fn t(self) -> u64;\n}\n"),
+    ("abi", "abi MyAbi {\n    fn a();\n", "    fn b();\n}\n"),
+    ("struct", "struct S {\n    x: u64,\n", "    y: u64,\n}\n"),
+    ("enum", "enum E {\n    A: (),\n", "    B: u64,\n}\n"),
+    ("storage", "storage {\n    v: u64 = 0,\n", "    w: u64 = 0,\n}\n"),
+    ("ifelse", "fn f(a: u64) -> u64 {\n    if a == 1 {\n        1\n", "    } else {\n        2\n    }\n}\n"),
+    ("while", "fn f(a: u64) {\n    while a == 1 {\n        let b = a;\n", "    }\n}\n"),
+];
+
+/// The generated-source stream: a few hundred small programs, the same in every run.
+fn generated() -> Vec<Case> {
+    let mut v = vec![];
+    let nl = |k: usize| "\n".repeat(k);
+    // (a) expressions
+    for op in BIN_OPS {
+        for (sn, e) in expr_shapes(op) {
+            for (pn, body) in expr_positions(&e) {
+                // the short form is exercised in every position; the long forms in a rotating subset plus let/if/ret
+                v.push(Case { id: format!("gen:expr/{}/{sn}/{pn}", op_name(op)), src: format!("script;\n\nfn main() -> u64 {{\n{body}}}\n") });
+            }
+        }
+    }
+    for (un, e) in [("not", format!("!{L1} && !{L2} && !{L3} && !({L1} || {L2})")), ("neg", format!("!a")),
+                    ("ref", format!("&{L1}")), ("deref", format!("*{L1} + *{L2} + *{L3} + *{L1} + *{L2}")),
+                    ("idx", format!("{L1}[{L2} + {L3}][{L1} ^ {L2}]")), ("cast", format!("{L1}.as_u64() ^ {L2}.as_u64() ^ {L3}.as_u64()")),
+                    ("structlit", format!("S {{ x: {L1} ^ {L2}, y: {L3} | {L1}, z: {L2} & {L3} }}")),
+                    ("tuplelit", format!("({L1} ^ {L2}, {L3} | {L1}, {L2} & {L3}, {L1} << {L2})")),
+                    ("arraylit", format!("[{L1} ^ {L2}, {L3} | {L1}, {L2} & {L3}, {L1} >> {L2}]")),
+                    ("manyargs", format!("g(a, b, c, {L1}, {L2}, {L3}, a + b, {L1} - {L2}, h(a, b, c, {L3}))"))] {
+        for (pn, body) in expr_positions(&e) {
+            v.push(Case { id: format!("gen:expr/{un}/{pn}"), src: format!("script;\n\nfn main() -> u64 {{\n{body}}}\n") });
+        }
+    }
+    // (b) comment between two items, (c) blank-line runs
+    for (i, (an, a)) in ITEMS.iter().enumerate() {
+        for (j, (bn, b)) in ITEMS.iter().enumerate() {
+            // blank-line runs 0..3 between every ordered pair of item kinds
+            for k in 0..4 {
+                if (i + j + k) % 2 == 0 || j == (i + 1) % ITEMS.len() {
+                    v.push(Case { id: format!("gen:blank/{an}-{bn}/{k}"), src: format!("contract;\n\n{a}{}{b}", nl(k)) });
+                }
+            }
+            // a comment between them: every comment text x blank lines before/after, rotating over the pairs
+            for (ci, (cn, c)) in GEN_COMMENTS.iter().enumerate() {
+                for after in 0..3 {
+                    let before = (i + j + ci + after) % 3;
+                    if j == (i + 1) % ITEMS.len() || j == i || (i * 7 + j * 3 + ci + after) % 6 == 0 {
+                        v.push(Case { id: format!("gen:cmt/{an}-{bn}/{cn}/{before}{after}"), src: format!("contract;\n\n{a}{}{c}\n{}{b}", nl(before), nl(after)) });
+                    }
+                }
+            }
+        }
+    }
+    // top of file / end of file
+    for (cn, c) in GEN_COMMENTS {
+        for after in 0..3 {
+            for (an, a) in ITEMS.iter().take(4) {
+                v.push(Case { id: format!("gen:top/{an}/{cn}/{after}"), src: format!("contract;\n\n{c}\n{}{a}\n{}", nl(after), ITEMS[2].1) });
+                v.push(Case { id: format!("gen:top0/{an}/{cn}/{after}"), src: format!("{c}\n{}contract;\n\n{a}\n{}", nl(after), ITEMS[2].1) });
+                v.push(Case { id: format!("gen:end/{an}/{cn}/{after}"), src: format!("contract;\n\n{}\n{a}{}{c}\n", ITEMS[2].1, nl(after)) });
+            }
+        }
+    }
+    // first / last in a block, after the last statement; the block is followed by two more items
+    for (bn, open, close) in BLOCKS {
+        for (cn, c) in GEN_COMMENTS {
+            for after in 0..3 {
+                let ind = if *bn == "ifelse" || *bn == "while" { "        " } else { "    " };
+                v.push(Case { id: format!("gen:inblock/{bn}/{cn}/{after}"),
+                    src: format!("contract;\n\n{open}{ind}{c}\n{}{close}\nfn g() {{}}\n\nfn h() {{}}\n", nl(after)) });
+                v.push(Case { id: format!("gen:inblock-b/{bn}/{cn}/{after}"),
+                    src: format!("contract;\n\n{open}{}{ind}{c}\n{close}\nfn g() {{}}\n\nfn h() {{}}\n", nl(after)) });
+            }
+        }
+    }
+    v
+}
+
+fn op_name(op: &str) -> &'static str {
+    match op { "^" => "xor", "|" => "or", "&" => "and", "+" => "add", "-" => "sub", "*" => "mul", "/" => "div", "%" => "rem",
+        "<<" => "shl", ">>" => "shr", "==" => "eq", "!=" => "ne", "<" => "lt", ">" => "gt", "<=" => "le", ">=" => "ge",
+        "&&" => "land", "||" => "lor", _ => "op" }
+}
+
 fn main() {
     let a = args();
     if !a.extra.iter().any(|x| x == "--show") { quiet_panics(); }
@@ -363,6 +561,14 @@ fn main() {
 
     if let Some(i) = a.extra.iter().position(|x| x == "--show") {
         let (cfg, id) = (a.extra[i + 1].clone(), a.extra[i + 2].clone());
+        if id.starts_with("gen:") {
+            let c = generated().into_iter().find(|c| c.id == id).expect("no such generated case");
+            let (o1, o2) = fmt_twice(&cfg, &c.src);
+            println!("=== {id} cfg={cfg}\n--- src\n{}\n--- out1 {:?}", c.src, status(&o1, &o2));
+            if let Out::Ok(s) = &o1 { println!("{s}"); }
+            if let Some(Out::Ok(s)) = &o2 { println!("--- out2\n{s}"); }
+            return;
+        }
         let (path, var) = id.split_once('#').unwrap();
         let src0 = std::fs::read_to_string(root.join(path.replace("%20", " "))).unwrap();
         let k: usize = var.trim_start_matches(|c: char| !c.is_ascii_digit()).parse().unwrap_or(0);
@@ -424,6 +630,17 @@ fn main() {
     for (cfg, c) in &corpus {
         let line = if mode == "c19" { c19_line(cfg, c) } else { Some(c18_line(cfg, c)) };
         if let Some(l) = line { writeln!(out, "{l}").unwrap(); n += 1; }
+    }
+    if mode != "kernel" {
+        let g = generated();
+        for (gi, c) in g.iter().enumerate() {
+            let other = ["w60", "w140", "tabs", "nt2", "win"][gi % 5];
+            for cfg in ["default", other] {
+                let line = if mode == "c19" { c19_line(cfg, c) } else { Some(c18_line(cfg, c)) };
+                if let Some(l) = line { writeln!(out, "{l}").unwrap(); n += 1; }
+            }
+        }
+        eprintln!("sv_c18[{mode}]: {} generated programs", g.len());
     }
     for (ci, c) in cases.iter().enumerate() {
         // default config always; the others rotate (quick) or all (thorough, on the file itself)
